@@ -116,6 +116,11 @@ func genC05(t *rapid.T) *C05Case {
 			sects := iniSectionsFor(d, o)
 			section := rapid.SampledFrom(sects).Draw(t, "section")
 			for j := 0; j < k; j++ {
+				// (the entries of one option may sit in different sections that
+				// denote the same group: before any header and under its name)
+				if j > 0 && len(sects) > 1 && rapid.Bool().Draw(t, "otherSection") {
+					section = rapid.SampledFrom(sects).Draw(t, "section2")
+				}
 				raw := ""
 				if o.Kind.IsFlag() {
 					raw = rapid.SampledFrom([]string{"", "true", "false"}).Draw(t, "iniFlag")
